@@ -97,7 +97,7 @@ CHECKS = {
          "3/C09", "CFG-X"),
  "C10": ("fault_enumeration",
          "exhaustive enumeration of configuration class x flags x output pre-state x injected file-system answers (every fs call of the runner is a choice point, <=1 / <=2 faults)",
-         "37 configuration/environment classes x 16 flag combinations x 5 output pre-states; for every fault-free run every os.ReadFile / os.WriteFile / filepath.Glob call of the runner (rewritten with go build -overlay) is failed in turn (EACCES, EIO, ErrBadPattern; thorough: pairs): exit 0 iff the -o path holds exactly the fault-free bytes (and parses), otherwise the path is byte-for-byte and stat-for-stat unchanged; the numbered error list matches the failing step's count; --quiet prints nothing and changes neither exit status nor file effects; real binaries confirm the exit status per class.",
+         "39 configuration/environment classes x 16 flag combinations x 11 output pre-states; for every fault-free run every os.ReadFile / os.WriteFile / filepath.Glob call of the runner (rewritten with go build -overlay) is failed in turn (EACCES, EIO, ErrBadPattern; thorough: pairs): exit 0 iff the -o path holds exactly the fault-free bytes (and parses), otherwise the path is byte-for-byte and stat-for-stat unchanged; the numbered error list matches the failing step's count; --quiet prints nothing and changes neither exit status nor file effects; real binaries confirm the exit status per class.",
          "trusted: the fs shim; writes failing after truncation are outside the statement's fault list",
          "3/C10", "CHOICE-X"),
  "C12": ("exploration",
@@ -107,7 +107,7 @@ CHECKS = {
          "3/C12", "CFG-X"),
  "C20": ("model_checking",
          "preemption-bounded stateless DFS over thread interleavings of real generated code and a sync-shimmed copy of the pinned runtime (cooperative scheduler), plus a separate free-running -race pass",
-         "17 collision-forcing drivers x 3 threads: every interleaving with <=2 preemptions (quick, ~210k complete executions) / <=3 preemptions and 2-operation threads (thorough, time-capped and reported) with scheduling points before every Mutex.Lock, RWMutex.RLock/Lock, Once.Do of the runtime and before every statement of generated code; each execution must not deadlock and must return exactly the sequential run's canonical object graphs and counters (each shared service / parameter built once, contextual instances per context). The same bodies run free on the real sync package under -race (16 goroutines x 200 rounds).",
+         "18 collision-forcing drivers x 3 threads: every interleaving with <=2 preemptions (quick, ~210k complete executions) / <=3 preemptions and 2-operation threads (thorough, time-capped and reported) with scheduling points before every Mutex.Lock, RWMutex.RLock/Lock, Once.Do of the runtime and before every statement of generated code; each execution must not deadlock and must return exactly the sequential run's canonical object graphs and counters (each shared service / parameter built once, contextual instances per context). The same bodies run free on the real sync package under -race (16 goroutines x 200 rounds).",
          "trusted: the scheduler and shim (RWMutex with writer preference); accesses below statement / sync-operation granularity are left to the race detector pass",
          "3/C20", "SCHED-X"),
 }
